@@ -152,6 +152,7 @@ def _consume(case, W, sams, ds):
             side[r] = {"len": int(len(s)), "pre_last": _ints(s.get_samples_for_epoch(e0 + k)),
                        "ignoring": _ints(s.get_samples_for_epoch_ignoring_distributed(e0 + k)),
                        "base_seed": int(s.base_seed) if case["kind"] == "random" else None}
+            side[r]["ignoring_plain"] = _plain_epoch_order(case, s, ds, e0 + k)
         if case.get("xrank") == "interleaved" and case.get("run", "seq") == "seq":
             # the ranks' samplers live in one process and are advanced in lock step
             yss = {r: [] for r in real}
@@ -175,6 +176,20 @@ def _consume(case, W, sams, ds):
         for r in real:
             out[r] = "exc:" + exc_kind(e)
     return out
+
+
+def _plain_epoch_order(case, s, ds, epoch):
+    """the epoch's order as a fresh sampler OUTSIDE any process group gives it for the same data source and
+    (seed, epoch): 'the order a sampler yields for an epoch is a function of (seed, epoch) alone' - the documented
+    get_samples_for_epoch_ignoring_distributed of a sampler inside a group (any world size, rank, mode) must be it"""
+    from pydrobert.torch.data import EpochRandomSampler, EpochSequentialSampler
+
+    with _group(0, 0):
+        if case["kind"] == "random":
+            p = EpochRandomSampler(ds if ds is not None else _ds(case), init_epoch=epoch, base_seed=int(s.base_seed))
+        else:
+            p = EpochSequentialSampler(ds if ds is not None else _ds(case), init_epoch=epoch)
+        return _ints(p.get_samples_for_epoch_ignoring_distributed(epoch))
 
 
 def _build(case, W, ranks, ds):
@@ -295,6 +310,9 @@ def side_failures(case, out, orders=None):
             rel.append(f"rank {r}: iterating after sampler.epoch = e0+k != the iteration that reached e0+k")
         if sd["len_after"] != o[0]:
             rel.append(f"rank {r}: len() changed by iterating")
+        if "ignoring_plain" in sd and sd["ignoring"] != sd["ignoring_plain"]:
+            rel.append(f"rank {r}: the epoch order (get_samples_for_epoch_ignoring_distributed(e0+k)) inside the group differs "
+                       "from the order a sampler outside any group gives for the same (seed, epoch)")
         if sd["ignoring"] != orders[-1]:
             mod.append(f"rank {r}: get_samples_for_epoch_ignoring_distributed(e0+k) is not the (seed, epoch) permutation")
         if sd["epoch_after"] != case["e0"] + case["k"] + 1:
